@@ -8,7 +8,7 @@ binding:  kernpy.transpose is called on all 25,200 cases + the inverse call + th
 """
 from __future__ import annotations
 
-from ..common import Run, main_wrapper, parse_args
+from ..common import Run, main_wrapper, parse_args, MachineryError
 from .. import tlc
 from . import pitchrec, flat
 
@@ -21,6 +21,9 @@ def describe(r):
     if r['op'] == 'compose':
         return (f"P4 then P5 {'up' if r['up'] else 'down'} from {''.join(map(chr, r['inp']))!r} -> "
                 f"{''.join(map(chr, r['out45']))!r}; octave -> {''.join(map(chr, r['out8']))!r}")
+    if r['op'] == 'objstep':
+        return (f"pitch object step {r['kind']} {r.get('iv', '')} {'up' if r.get('up') else ''}: the object should be (letter {r['l']}, alteration {r['a']}, octave {r['o']}) "
+                f"and is ({r['name']}, {r['oct']}); result ok={r['ok']} ({r['rname']}, {r['roct']}) chroma={r['val']} export={''.join(map(chr, r['out']))!r}")
     return str(r)[:200]
 
 
@@ -33,8 +36,32 @@ def main():
                 'is not the unison')
     run.add_tlc(tlc.run_tlc('MC_Pitch', workers=8, timeout=900))
     recs = pitchrec.record_tables() + pitchrec.record_transpose()
+    # a pitch OBJECT under a history of setter / chroma / transposition / export calls: every history of length 3 and simulated
+    # histories of length 10 (MC_PitchObj), each replayed on one real AgnosticPitch object
+    ex3 = tlc.run_tlc('MC_PitchObj', 'MC_PitchObj_3.cfg', workers=8, timeout=900, label='MC_PitchObj(len<=3)')
+    sim = tlc.run_tlc('MC_PitchObj', 'MC_PitchObj_10.cfg', workers=1, timeout=900, simulate='num=%d' % (60 if a.tier == 'quick' else 600), depth=11,
+                      seed=a.seed % 100000, label='MC_PitchObj(simulate len=10)')
+    run.add_tlc(ex3)
+    run.add_tlc(sim)
+    hists = [h['hist'] for h in ex3.vp] + [h['hist'] for h in sim.vp][:1500 if a.tier == 'quick' else 15000]
+    if len(ex3.vp) < 1000 or len(sim.vp) < 50:
+        raise MachineryError(f'unexpected number of pitch-object histories: {len(ex3.vp)} + {len(sim.vp)}')
+    nobj = 0
+    for h in hists:
+        part = pitchrec.replay_object_history(h)
+        for r in part:
+            r['hid'] = nobj                  # which history the step belongs to (a stored violation is replayed with its whole history)
+        recs += part
+        nobj += 1
+    run.note('pitch_object_histories', nobj)
     if a.replay_case:
-        recs = flat.fresh_record(recs, a.replay_case['case']['record'], ('op', 'l', 'a', 'o', 'iv', 'up', 'name'))
+        st = a.replay_case['case']['record']
+        if st.get('op') == 'objstep':
+            recs = [r for r in recs if r.get('hid') == st.get('hid')]         # the whole history, re-executed on the current code
+            if not recs:
+                raise MachineryError('replay: the stored history is not among the enumerated ones any more')
+        else:
+            recs = flat.fresh_record(recs, st, ('op', 'l', 'a', 'o', 'iv', 'up', 'name'))
     if not a.replay_case:
         def corrupt(rs):
             i = next(i for i, r in enumerate(rs) if r['op'] == 'transpose' and r['ok'] and r['iv'] == 'M2' and r['up'])
